@@ -304,6 +304,74 @@ def make_factories():
     return fn
 
 
+# ------------------------------------------------------------------ O2d: commands with quoting, as the provider checks them
+QUOTED_COMMANDS = ['/bin/sh -c "cat /etc/shadow"', "/bin/echo  two  spaces", "/bin/echo a\\ b", "/bin/echo 'single quoted'", '/bin/echo "a b" c', "/bin/echo plain"]
+
+
+def run_quoted(ci, deny_kind, factory):
+    """one command of the pool through simple_command / foreach_execute with a deny entry that is the command as the spec wrote it
+    ("exact"), that command followed by an argument ("prefix": not denied), or another command ("other"); returns executed commands"""
+    cmd = QUOTED_COMMANDS[ci]
+    root = scratch_tree()
+    log = []
+    saved_c = set(blacklist._COMMAND_FILTERS) if NATIVE else list(blacklist._COMMAND_FILTERS._it)
+    real_which = SF.which
+    SF.which = lambda c, env=None: c
+    try:
+        blacklist.add_command({"exact": cmd, "prefix": cmd + " extra", "other": "/bin/true"}[deny_kind])
+        if factory == "simple_command":
+            ds = SF.simple_command(cmd)
+        else:
+            def names(broker):
+                return ["x"]
+            names.__name__ = "names"
+            nds = SF.datasource(HostContext)(names)
+            ds = SF.foreach_execute(nds, cmd + " %s")
+        broker = dr.Broker()
+        broker[HostContext] = RecordingHost(root, log)
+        dr.run(dr.get_dependency_graph(ds), broker=broker)
+        v = broker.get(ds)
+        for prov in (v if isinstance(v, list) else [v] if v is not None else []):
+            try:
+                prov.content
+            except Exception:  # noqa
+                pass
+        return [c for k, c in log]
+    finally:
+        SF.which = real_which
+        if NATIVE:
+            blacklist._COMMAND_FILTERS.clear(); blacklist._COMMAND_FILTERS.update(saved_c)  # noqa
+        else:
+            blacklist._COMMAND_FILTERS._it = saved_c
+
+
+def judge_quoted(ci, deny_kind, factory, executed):
+    ran = bool(executed)
+    # a deny entry denies the command it spells and that command followed by further arguments
+    must_refuse = deny_kind == "exact" or (deny_kind == "exact-args")
+    if factory == "foreach_execute" and deny_kind == "exact":
+        must_refuse = True          # "<command> x" is the denied command followed by an argument
+    if must_refuse and ran:
+        return ["the deny-listed command %r was executed (%r)" % (QUOTED_COMMANDS[ci], executed)]
+    if not must_refuse and not ran:
+        return ["the command %r is not deny-listed (%s entry) but was not executed" % (QUOTED_COMMANDS[ci], deny_kind)]
+    return []
+
+
+def make_quoted():
+    def fn(en):
+        with REG:
+            ci = en.choice("command", len(QUOTED_COMMANDS))
+            deny_kind = ["exact", "prefix", "other"][en.choice("deny", 3)]
+            factory = ["simple_command", "foreach_execute"][en.choice("factory", 2)]
+            case = lambda mv: {"kind": "quoted", "command": ci, "deny": deny_kind, "factory": factory}  # noqa
+            en.note_sample(case)
+            executed = run_quoted(ci, deny_kind, factory)
+            bad = judge_quoted(ci, deny_kind, factory, executed)
+            en.must_hold(not bad, "deny-list", case, detail=bad)
+    return fn
+
+
 # ------------------------------------------------------------------ O2c: components deny-listed by name
 def run_components_denied(denied, order, stale):
     """two datasources whose names end in the same segment; `denied` (subset of A, B) is deny-listed by full component name through
@@ -447,6 +515,60 @@ def make_save_as(maxlen):
     return fn
 
 
+# ------------------------------------------------------------------ O3d: raw files are copied into the output directory (real cp, real tree)
+RAW_KINDS = ["regular", "absolute-symlink", "relative-symlink", "symlinked-directory"]
+
+
+def raw_persist(kind_, save_as):
+    """a RawFileProvider for a file reached as `kind_` says, persisted by its serializer; returns problems with what was created"""
+    base = tempfile.mkdtemp(prefix="c06raw_")
+    try:
+        root = os.path.join(base, "root")
+        os.makedirs(os.path.join(root, "usr", "lib"))
+        os.makedirs(os.path.join(root, "etc"))
+        with open(os.path.join(root, "usr", "lib", "os-release"), "wb") as f:
+            f.write(b"NAME=x\n")
+        rel = "etc/os-release"
+        link = os.path.join(root, rel)
+        if kind_ == "regular":
+            shutil.copy(os.path.join(root, "usr", "lib", "os-release"), link)
+        elif kind_ == "absolute-symlink":
+            os.symlink(os.path.join(root, "usr", "lib", "os-release"), link)
+        elif kind_ == "relative-symlink":
+            os.symlink("../usr/lib/os-release", link)
+        else:
+            os.rmdir(os.path.join(root, "etc"))
+            os.symlink("usr/lib", os.path.join(root, "etc"))
+        prov = SF.RawFileProvider(rel, root=root, save_as=save_as)
+        data = os.path.join(base, "out", "data")
+        SF.serialize_raw_file_provider(prov, data)
+        bad = []
+        created = []
+        for dp, dn, fn in os.walk(os.path.join(base, "out")):
+            for n in fn + [d for d in dn if os.path.islink(os.path.join(dp, d))]:
+                created.append(os.path.join(dp, n))
+        if not created:
+            bad.append("nothing was persisted")
+        for c in created:
+            real = os.path.realpath(c)
+            if os.path.islink(c) or not real.startswith(os.path.realpath(data) + os.sep):
+                bad.append("the persisted entry %s is %s located at %s, outside the output directory" % (os.path.relpath(c, base), "a link" if os.path.islink(c) else "a file", os.path.relpath(real, base)))
+        return bad
+    finally:
+        shutil.rmtree(base, ignore_errors=True)
+
+
+def make_raw_persist():
+    def fn(en):
+        k_ = RAW_KINDS[en.choice("source", len(RAW_KINDS))]
+        sa = [None, "dir/", "name"][en.choice("save_as", 3)]
+        case = lambda mv: {"kind": "raw", "source": k_, "save_as": sa}  # noqa
+        en.note_sample(case)
+        bad = raw_persist(k_, sa)
+        en.must_hold(not bad, "written-inside-output", case, detail=bad)
+    return fn
+
+
 def make_mangle(maxlen):
     def fn(en):
         cmd = sstr.fresh_str(en, "cmd", 1 + en.choice("len", maxlen), "/ .-_a{b")
@@ -489,6 +611,10 @@ def obligations(tier):
                    stubs=["HostContext.shell_out / check_output record the command instead of executing it", "for the two container factories `which` answers that the engine binary exists (no container engine is installed here)"],
                    outside=["listdir / listglob read names only"],
                    encoded=enc[1:2] + enc[4:12], budget_s=120, replay="factory", check_sample=True),
+        Obligation("O2d-quoted-commands", make_quoted(), ["deny-list"],
+                   desc="commands whose text carries quotes, escapes or repeated blanks, deny-listed exactly as the spec spells them (or by another entry): the provider refuses exactly the denied ones (finite exploration)",
+                   bounds={"commands": QUOTED_COMMANDS, "deny entry": ["the command as written", "the command plus an argument", "another command"], "factories": ["simple_command", "foreach_execute"]},
+                   stubs=["HostContext.shell_out / check_output record the command instead of executing it", "`which` answers that the binary exists"], encoded=[SF.CommandOutputProvider.validate], budget_s=60, replay="factory", check_sample=True),
         Obligation("O2c-components-by-name", make_components_denied(), ["deny-list"],
                    desc="components deny-listed by their full name through apply_blacklist: two datasources whose names end in the same segment, any subset denied in either order, with or without an earlier skip of the same short name in the process",
                    bounds={"components": 2, "denied": "any subset, both orders", "earlier skip recorded": "yes / no"}, encoded=[collect.apply_blacklist, dr.set_enabled, dr.run_components],
@@ -503,6 +629,9 @@ def obligations(tier):
                    desc="the save-as name a spec declares, as normalised by each factory, joined by the serializers: the destination stays inside the output directory",
                    bounds={"factories": SAVE_AS_FACTORIES, "save_as": "1-%d symbolic chars over '/', 'a', 'b'" % (4 if thorough else 3)},
                    outside=["save-as names with '.' segments (a spec author's constant, not collected data)"], encoded=enc[12:] if len(enc) > 12 else enc, budget_s=300 if thorough else 100, replay="dest", check_sample=True),
+        Obligation("O3d-raw-files", make_raw_persist(), ["written-inside-output"],
+                   desc="raw files persisted by the real cp on a real scratch tree, reached directly or through symlinks: what is created is a regular file that really lives inside the output directory (finite exploration)",
+                   bounds={"sources": RAW_KINDS, "save_as": [None, "dir/", "name"]}, outside=["cp itself"], encoded=[SF.RawFileProvider.write, SF.serialize_raw_file_provider], budget_s=60, replay="dest", check_sample=True),
         Obligation("O3b-mangle", make_mangle(5 if thorough else 4), ["written-inside-output"],
                    desc="mangle_command on a symbolic command never yields a name with '/', '.' or '..'", bounds={"command": "1-%d chars over '/ .-_a{b'" % (5 if thorough else 4)},
                    stubs=["re.sub via SymRe"], encoded=enc[18:], budget_s=600 if thorough else 120, replay="mangle", check_sample=True),
@@ -579,6 +708,10 @@ def _native(case):
     if kind == "factory":
         touched, dfile, dcmd = run_factory(case["factory"], case["denied"], case["mode"])
         return judge_factory(touched, dfile, dcmd)
+    if kind == "raw":
+        return raw_persist(case["source"], case["save_as"])
+    if kind == "quoted":
+        return judge_quoted(case["command"], case["deny"], case["factory"], run_quoted(case["command"], case["deny"], case["factory"]))
     if kind == "components":
         ran = run_components_denied(case["denied"], case["order"], case["stale"])
         return ["deny-listed component %s ran" % t for t in case["denied"] if t in ran] + ["component %s is not deny-listed but did not run" % t for t in ("A", "B") if t not in case["denied"] and t not in ran]
